@@ -107,15 +107,23 @@ theorem left_trichotomy (a b : Left) :
     (a.lt b = false ∧ a.eq b = true ∧ b.lt a = false) ∨
     (a.lt b = false ∧ a.eq b = false ∧ b.lt a = true) := Left.trichotomy a b
 
-/-- `hash_value(Left)` respects `==` whenever the two are not both empty with different `full` flags … -/
-theorem left_eq_hash_partial (H : List Nat → Nat → Nat) (a b : Left) (h : a.eq b = true)
-    (hfull : a.length = 0 → a.full = b.full) : a.hash H = b.hash H := Left.eq_hash_partial H a b h hfull
+/-- equal `Left` states hash equally (holds for the code after repo patch 61-fix-left-hash) -/
+theorem left_eq_hash (H : List Nat → Nat → Nat) (a b : Left) (h : a.eq b = true) : a.hash H = b.hash H :=
+  Left.eq_hash H a b h
 
-/-- … and the unrestricted statement "equal Left states hash equally" is **false** in the faithful model:
-`==` ignores `full` when `length == 0`, `hash_value` hashes it.  Witness replayed on the real code by the
-`state-algebra` stream (known finding `left-empty-full-hash`). -/
-theorem left_eq_hash_fails :
-    ¬ ∀ (H : List Nat → Nat → Nat) (a b : Left), a.eq b = true → a.hash H = b.hash H := by
+/-- equal `ChartState`s hash equally: `hash_value(ChartState) = hash_value(right, seed = hash_value(left))` -/
+theorem chart_eq_hash (H : List Nat → Nat → Nat) (a b : ChartState) (h : a.eq b = true) : a.hash H = b.hash H := by
+  unfold ChartState.eq at h
+  simp only [Bool.and_eq_true] at h
+  unfold ChartState.hash
+  rw [Left.eq_hash H a.left b.left h.2]
+  exact State.eq_hash H a.right b.right _ h.1
+
+/-- Before the repair the statement was **false** (this witness was replayed on the unpatched code by the
+`state-algebra` stream: `==` true, hashes different): `hash_value` hashed `full` even for empty left
+states, `==` ignores it. -/
+theorem left_eq_hash_failed_before_fix :
+    ¬ ∀ (H : List Nat → Nat → Nat) (a b : Left), a.eq b = true → a.hashOld H = b.hashOld H := by
   intro h
   have := h (fun bytes seed => bytes.sum + seed) { length := 0, full := false } { length := 0, full := true } (by decide)
   revert this
